@@ -31,6 +31,7 @@ var c01Deviations = []string{
 var c01LiquidOnly = []string{
 	"asset-attacker-consistent", "asset-forged-disclosure", "asset-explicit-other", "explicit-policy-asset",
 	"blindkey-wrong", "blindkey-absent", "blinded-to-other-key",
+	"explicit-amount-1", "explicit-amount+1", "explicit-amount-tiny",
 }
 
 type c01Case struct {
@@ -270,6 +271,12 @@ func c01Announce(r *Run, w *sim.World, c c01Case, rng *mrand.Rand, chain *sim.Ch
 		value *= 1000
 	case "amount-0":
 		value = 0
+	case "explicit-amount-1":
+		value--
+	case "explicit-amount+1":
+		value++
+	case "explicit-amount-tiny":
+		value = 1
 	case "keys-swapped":
 		taker, maker = maker, taker
 	case "foreign-taker-key":
@@ -305,7 +312,7 @@ func c01Announce(r *Run, w *sim.World, c c01Case, rng *mrand.Rand, chain *sim.Ch
 	case "asset-explicit-other":
 		good.Asset = attackerAsset
 		good.Explicit = true
-	case "explicit-policy-asset":
+	case "explicit-policy-asset", "explicit-amount-1", "explicit-amount+1", "explicit-amount-tiny":
 		good.Explicit = true
 	case "blindkey-wrong":
 		k, _ := btcec.NewPrivateKey()
